@@ -488,6 +488,31 @@ pub fn run(rep: &mut Report, thorough: bool) {
         );
         rep.stage("sizes", "(every corpus payload + ICMP echo) grown to 15 sizes 1400..70000 x 3 fill bytes x {v4,v6} x {UDP, TCP behind a valid cookie}, overflow-checked build at log level trace", engine::product(&dims), t0);
     }
+    // 4b'a. address alphabets: source MAC x client IP x server IP x eliciting kind x IP version
+    // (unspecified, broadcast, multicast, loopback, IPv4-mapped ...) under the extreme configurations
+    // on the overflow-checked build, with and without address lists
+    {
+        use crate::props::c02::{elicit, Kind};
+        let macs: Vec<Mac> = vec![MAC_CLI, [0; 6], [0xff; 6], [0x01, 0, 0x5e, 1, 2, 3], [0x33, 0x33, 0, 0, 0, 1], crate::driver::MAC_SRV];
+        let dmacs: Vec<Mac> = vec![crate::driver::MAC_SRV, [0xff; 6], [0x33, 0x33, 0, 0, 0, 1], [0x01, 0, 0x5e, 0, 0, 1]];
+        let ip4: Vec<Ip> = vec![cli4(), Ip::V4([0, 0, 0, 0]), Ip::V4([255, 255, 255, 255]), Ip::V4([224, 0, 0, 1]), Ip::V4([127, 0, 0, 1]), srv4(), srv4b(), Ip::V4([169, 254, 1, 1])];
+        let ip6: Vec<Ip> = vec![cli6(), Ip::parse("::"), Ip::parse("ff02::1"), Ip::parse("::1"), srv6(), srv6b(), Ip::parse("fe80::1"), Ip::parse("::ffff:10.0.0.9")];
+        let kinds4 = [Kind::Arp, Kind::Echo, Kind::Syn, Kind::Stun, Kind::StunChange];
+        let kinds6 = [Kind::Ns, Kind::Echo, Kind::Syn, Kind::Stun, Kind::StunChange];
+        let dims = [macs.len() as u64, dmacs.len() as u64, 8, 8, 5, 2];
+        for c in [Cfg::base().with_log(LoggerKind::Console, Level::Trace), ext[0].clone()] {
+            let cfg = c.with_profile(Profile::Dev);
+            let stage = format!("address-alphabets-{}", if cfg.self_ips.is_empty() { "plain" } else { "lists" });
+            crate::props::sweep_frames(rep, &cfg, &stage, "source MAC (6) x destination MAC (4) x client IP (8) x server IP (8) x eliciting kind (5) x IP version, console logger at trace, overflow-checked build", engine::product(&dims), |i| {
+                let d = engine::unrank(i, &dims);
+                let v6 = d[5] == 1;
+                let (cip, sip, k) = if v6 { (ip6[d[2] as usize], ip6[d[3] as usize], kinds6[d[4] as usize]) } else { (ip4[d[2] as usize], ip4[d[3] as usize], kinds4[d[4] as usize]) };
+                let mut f = elicit(k, &dmacs[d[1] as usize], &cip, &sip);
+                f[6..12].copy_from_slice(&macs[d[0] as usize]);
+                f
+            });
+        }
+    }
     // 4b''. many connections in one table: 70 000 flows, each validated by a first data segment
     // (a mix of identified protocols, undecided and dead matchers), then a second segment on each
     {
